@@ -143,6 +143,16 @@ def record(rng, n, tail=None):
                  "twin": tw if isinstance(tw, list) else [], "sup": sup, "unchanged": g["unchanged"], "twin_note": tw if isinstance(tw, str) else ""}
             cases.append(c)
             sup = len(cases)
+    # dense order-3 masks at thresholds 2 and 3: vertices that lose several successors in one round while a predecessor sits just
+    # above the threshold (an incremental re-count that is off by one only shows here; order 2 is too small for it)
+    for i in range(50 * n):
+        dens = [0.6, 0.7, 0.8, 0.9][i % 4]
+        mask = sorted(v for v in range(64) if rng.random() < dens)
+        t = 2 + (i // 4) % 2
+        g = run_coding(3, mask, t, as_int=(i % 2 == 1))
+        tw = run_twin(3, mask, t)
+        cases.append({"kind": "coding", "k": 3, "mask": mask, "t": t, "out": g["out"], "verts": g["verts"], "live": g["live"],
+                      "twin": tw if isinstance(tw, list) else [], "sup": 0, "unchanged": g["unchanged"], "twin_note": tw if isinstance(tw, str) else ""})
     return cases
 
 
